@@ -35,6 +35,11 @@ CHECKS = {
    technique="TLA+ model of the exhaustiveness decision (FoMatch.tla: marking machine vs declarative coverage, checked equal by TLC on every enumerated configuration); every configuration is one run of the real fc binary, accepted programs are compiled and run on every constructor, observations validated by TLC (FoMatchTrace.tla)",
    text="TLC enumerates every union with 1..4 cases (quick; 5 in thorough) x payload mixes x ordered non-empty arm subsets x arm forms x default/no default, proves the parser's marking procedure equal to the declarative coverage condition, and validates what the real fc binary did on each configuration (exit status, output file, diagnostic naming an uncovered case, no runtime fatal error) in the plain context and nested in let/if/arm/lambda, after earlier matches on the same union in the same run, and on un-annotated targets; accepted programs are compiled and called with every constructor and must dispatch to the matching arm and never reach the emitted panic.",
    note="Trusted: the renderer of configurations into Folang; whole-word search of case names in fc's diagnostic; payloads are ints; quick tier samples the non-plain contexts by seed."),
+ "C15": dict(
+   category="model_checking", design_ref="4.15", engine="FoTypeExpr",
+   technique="TLA+ model of the 4-level type grammar as a recursive-descent machine, two printers and the Go mapping (FoTypeExpr.tla); TLC checks parse(print(t)) = t on every enumerated term; the terms are written in every syntactic position, transpiled by the real fc, the Go types read back with go/parser and validated by TLC (FoTypeExprTrace.tla)",
+   text="Type terms up to depth 2 (plus selected depth 3) over the base types, slices, 2/3-tuples, function types incl. unit argument/result, a generic user record and generic/plain external types are enumerated by TLC; for both a minimal-parentheses and a redundant-parentheses printer TLC checks that the grammar machine parses the text back to the same term, and validates the Go type that the real fc emits for the text in each of the 5 positions against the documented mapping. Exhaustive under the bound.",
+   note="Trusted: go/parser + go/printer normalisation (white space removed on both sides); the renderer placing a type text into each position; the universe bound (depth 2 with one deep component per constructor)."),
 }
 
 def cmd(pid, tier):
